@@ -93,6 +93,20 @@ def run(tier):
                 v.violation("c11:python-hash-differs", "hash_name != djb2 on a synthetic name", {"name": s})
         except Exception as e:  # noqa
             v.violation("c11:python-hash-raises", "hash_name raised", {"name": s, "error": repr(e)})
+    # names with edge-valued hashes and a seeded population of random printable names: hash_name is the 32-bit djb2, nothing else
+    import os as _os
+    import random as _random
+    rng = _random.Random(int(_os.environ.get("VERIF_SEED", "1")) * 7919 + 11)
+    pop = ["Test/Hafszjqta", "Test/Hafszjqtb", "Test/Hahhvdnhb", "Test/Hahhvdnhc", "Test/Hamhisdeg", "Test/Hamhisdeh", "Test/Hafszjvrc"]
+    alphabet = "ABCDEFGHIJKLMNOPQRSTUVWXYZabcdefghijklmnopqrstuvwxyz0123456789/_-+"
+    for _ in range(20000 if tier == "quick" else 400000):
+        pop.append("".join(rng.choice(alphabet) for _ in range(rng.choice((1, 2, 3, 5, 8, 13, 21, 30)))))
+    n_rand = 0
+    for s_ in pop:
+        n_rand += 1
+        if transformer.hash_name(s_) != srcparse.djb2(s_):
+            v.violation("c11:python-hash-differs", "hash_name != djb2 on a synthetic name", {"name": s_, "hash_name": transformer.hash_name(s_), "djb2": srcparse.djb2(s_)})
+    c["synthetic_names_hashed"] = n_rand
     # --- checked-in python database
     zi = importlib.import_module("zonedbpy.zone_infos")
     n_py = 0
@@ -214,6 +228,38 @@ def run(tier):
                 v.violation("c11:compiler-emits-colliding-ids", "the compiler emitted a database in which two zones share an id",
                             {"scope": scope, "a": seen_ids[zid], "b": name, "id": "0x%08x" % zid})
             seen_ids[zid] = name
+    # --- ids at the edges of the 32-bit range: names whose djb2 is 0, 1, 2^31-1, 2^31, 2^32-2, 2^32-1 and the hash's own
+    #     start value go through the real compiler and generator; the id written into zone_infos.cpp and the constant
+    #     published in zone_infos.h must both be the djb2 of the full name (0 is not a reserved value in the property)
+    special = ["Test/Hafszjqta", "Test/Hafszjqtb", "Test/Hahhvdnhb", "Test/Hahhvdnhc", "Test/Hamhisdeg", "Test/Hamhisdeh", "Test/Hafszjvrc"]
+    assert [srcparse.djb2(n) for n in special] == [0, 1, 0x7FFFFFFF, 0x80000000, 0xFFFFFFFE, 0xFFFFFFFF, 5381]
+    for half, names in (("a", special[0::2]), ("b", special[1::2])):      # 0 and 1 in different sources: a hash that avoids 0 must not be masked by a collision refusal
+      spsrc = "".join("Zone %s %d:00 - T%02d\n" % (n, i + 1, i) for i, n in enumerate(names)) + "Link %s Test/Alias_%s\n" % (names[0], half)
+      sdir = tzpipe.write_input_dir(spsrc, out / ("in-special-ids-" + half))
+      for scope, ns in (("extended", "spdbx"), ("basic", "spdb")):
+          try:
+              sc = tzpipe.compile_source(sdir, scope, 2000, 2050)
+              sgen = out / ("gen-special-%s-%s" % (half, scope))
+              tzpipe.generate_arduino(sc, sgen, ns)
+          except tzpipe.CompilerDied as e:
+              v.violation("c11:fresh-compilation-failed", "a source whose names hash to the edges of the 32-bit range could not be compiled",
+                          {"scope": scope, "error": repr(e.exc)[:300]})
+              continue
+          d = srcparse.parse_zone_infos_h(sgen / "zone_infos.h")
+          consts = {name: val for sym, val, name in d["ids"]}
+          cpp = (sgen / "zone_infos.cpp").read_text()
+          emitted = dict((n, int(x, 16)) for n, x in re.findall(r'kZoneName\w+\[\] \w* ?= "([^"]+)";.*?(0x[0-9a-f]+) /\*zoneId\*/', cpp, re.S))
+          for n in names:
+              c["special_ids_checked"] = c.get("special_ids_checked", 0) + 1
+              if n not in sc.zone_infos:
+                  v.violation("c11:special-id-zone-not-emitted", "a plain fixed-offset zone whose name hashes to an edge value was not emitted", {"scope": scope, "zone": n})
+                  continue
+              want = srcparse.djb2(n)
+              if consts.get(n) != want or emitted.get(n) != want:
+                  v.violation("c11:generated-id-is-not-djb2", "the id the generator writes for a zone is not the djb2 hash of its full name",
+                              {"scope": scope, "zone": n, "djb2": "0x%08x" % want, "header_constant": consts.get(n), "zone_infos_cpp": emitted.get(n)})
+    if c.get("special_ids_checked", 0) < 14:
+        v.inconclusive_because("the edge-valued ids were not all examined")
     c.update({"python_hash_checked": n_hash, "baseline_checked": n_base, "python_db_names": n_py, "python_db_common": common_py})
     if c.get("c11.generated_registry_entries", 0) < 600 or c.get("c11.registry_entries", 0) < 600 or c.get("c11.links", 0) < 300 or n_base < 300 or common_py < 300:
         v.inconclusive_because("deciding counters too low: %r" % c)
